@@ -466,6 +466,9 @@ class Optic:
         rays = self.ray_generator.generate_rays(Hx, Hy, Px, Py, wavelength)
         rays = self.surface_group.trace(rays)
 
+        if isinstance(rays, PolarizedRays):
+            rays.update_intensity(self.polarization_state)
+
         # update intensity
         self.surface_group.intensity[-1, :] = rays.i
 
